@@ -259,6 +259,7 @@ type Exec struct {
 	simVariant string
 	simLimit   int64
 	relMode    bool
+	allocMode  bool
 }
 
 // SpecHook lets a proof driver add hypotheses when the path reads input bytes or jumps.
@@ -1088,6 +1089,16 @@ func sizeofType(t types.Type) int64 {
 
 func (ex *Exec) allocEvent(st *State, site string, bytes *Term, pos token.Pos) {
 	st.events = append(st.events, &Event{Kind: "alloc", Site: ex.siteName(pos, site), Info: map[string]*Term{"bytes": bytes}, NPC: len(st.pc), Pos: pos})
+	ex.addAlloc(st, bytes)
+}
+
+// addAlloc: ghost counter of heap bytes requested by this call (and its callees under contract).
+func (ex *Exec) addAlloc(st *State, bytes *Term) {
+	g, ok := st.ghost["alloc"]
+	if !ok {
+		g = I64(0)
+	}
+	st.ghost["alloc"] = Add(g, bytes)
 }
 
 func (ex *Exec) makeSlice(st *State, i *ssa.MakeSlice) []*State {
@@ -1124,6 +1135,7 @@ func (ex *Exec) makeMap(st *State, i *ssa.MakeMap) {
 		hint = Resize(ex.term(st, i.Reserve), 64, true)
 	}
 	st.events = append(st.events, &Event{Kind: "alloc", Site: ex.siteName(i.Pos(), "makemap"), Info: map[string]*Term{"bytes": Mul(hint, I64(48)), "hint": hint}, NPC: len(st.pc), Pos: i.Pos()})
+	ex.addAlloc(st, Add(Mul(hint, I64(48)), I64(48)))
 }
 
 func (ex *Exec) mapUpdate(st *State, i *ssa.MapUpdate) {
